@@ -506,6 +506,7 @@ def run_property(prop, tier, seed, verbose=False, write_evidence=True):
             kf = [f for f in findings if fnmatch.fnmatch("bounded/" + b.bid, f.get("obligation", "\0"))]
             if kf:
                 lines.append("KNOWN-FINDING: property=%s %s" % (prop, kf[0].get("text")))
+                known_hit.append((kf[0], "bounded/" + b.bid))
                 continue
             os.makedirs(replay_dir, exist_ok=True)
             path = os.path.join(replay_dir, "bounded__%s.json" % b.bid)
